@@ -1,0 +1,52 @@
+//go:build verif
+
+package syncer
+
+import (
+	"context"
+
+	"github.com/PowerDNS/lightningstream/lmdbenv/header"
+	"github.com/PowerDNS/lightningstream/snapshot"
+	"github.com/PowerDNS/lightningstream/syncer/cleaner"
+	"github.com/PowerDNS/lmdb-go/lmdb"
+)
+
+// VerifYield, when set, is called at named points of the sync loop
+// (verification builds only). It may block to act as a scheduler gate.
+var VerifYield func(s *Syncer, point string, args ...interface{})
+
+func verifYield(s *Syncer, point string, args ...interface{}) {
+	if f := VerifYield; f != nil {
+		f(s, point, args...)
+	}
+}
+
+// VerifCleaner exposes the syncer's cleaner worker.
+func (s *Syncer) VerifCleaner() *cleaner.Worker { return s.cleaner }
+
+// VerifInstanceID exposes the sanitised instance name.
+func (s *Syncer) VerifInstanceID() string { return s.instanceID() }
+
+// VerifEnv exposes the LMDB environment of the syncer.
+func (s *Syncer) VerifEnv() *lmdb.Env { return s.env }
+
+// VerifMainToShadow runs the main-to-shadow pass inside a caller-owned transaction.
+func (s *Syncer) VerifMainToShadow(ctx context.Context, txn *lmdb.Txn, ts header.Timestamp) error {
+	return s.mainToShadow(ctx, txn, ts)
+}
+
+// VerifShadowToMain runs the shadow-to-main pass inside a caller-owned transaction.
+func (s *Syncer) VerifShadowToMain(ctx context.Context, txn *lmdb.Txn) error {
+	return s.shadowToMain(ctx, txn)
+}
+
+// VerifReadDBI exposes readDBI.
+func (s *Syncer) VerifReadDBI(txn *lmdb.Txn, dbiName, origDBIName string, rawValues bool) (*snapshot.DBI, error) {
+	return s.readDBI(txn, dbiName, origDBIName, rawValues)
+}
+
+// Dupsort-hack helpers.
+func VerifDupSortHackEncode(d *snapshot.DBI) (*snapshot.DBI, error) { return dupSortHackEncode(d) }
+func VerifDupSortHackDecode(d *snapshot.DBI) (*snapshot.DBI, error) { return dupSortHackDecode(d) }
+func VerifDupSortHackEncodeOne(kv snapshot.KV) (snapshot.KV, error) { return dupSortHackEncodeOne(kv) }
+func VerifDupSortHackDecodeOne(kv snapshot.KV) (snapshot.KV, error) { return dupSortHackDecodeOne(kv) }
